@@ -44,9 +44,9 @@ pub struct ProcPart {
 }
 
 /// Canonical key of a non-AUX component: (kind, id, tags, comment, value bits).
-type Key = (String, i32, String, String, Vec<u32>);
+pub type Key = (String, i32, String, String, Vec<u32>);
 
-fn key_of_line(l: &Line) -> Option<Key> {
+pub fn key_of_line(l: &Line) -> Option<Key> {
     let bits: Vec<u32> = l.f32s().iter().map(|v| v.to_bits()).collect();
     match &l.kind {
         Kind::Used { service, carrier } => Some(("CONSUMO".into(), l.id, format!("{},{}", service, carrier), l.comment.clone(), bits)),
@@ -56,7 +56,7 @@ fn key_of_line(l: &Line) -> Option<Key> {
     }
 }
 
-fn key_of_comp(c: &Energy) -> Option<Key> {
+pub fn key_of_comp(c: &Energy) -> Option<Key> {
     let bits: Vec<u32> = c.values().iter().map(|v| v.to_bits()).collect();
     match c {
         Energy::Used(e) => Some(("CONSUMO".into(), e.id, format!("{},{}", e.service, e.carrier), e.comment.clone(), bits)),
